@@ -84,6 +84,48 @@ def cirq_sim(n_shots=None, generic=False):
     return _sims[key]
 
 
+def user_msq_sim(n_shots=None):
+    """A USER-DEFINED backend (documented extension point of tangelo.linq, cf. test_user_provided_simulator): a thin
+    Backend subclass that simulates with cirq but exchanges statevectors in msq_first order (qubit 0 = least significant
+    bit of the amplitude index) and advertises that.  Everything else (frequencies, sampling, expectation values,
+    variance) is the code of the Backend base class under test; it has no expectation_value_from_prepared_state."""
+    key = ("usermsq", n_shots)
+    if key not in _sims:
+        from tangelo.linq import get_backend
+        from tangelo.linq.target.backend import Backend
+        from tangelo.linq.translator import translate_circuit
+
+        class UserMsqBackend(Backend):
+            def simulate_circuit(self, source_circuit, return_statevector=False, initial_statevector=None):
+                import cirq
+                n = source_circuit.width
+                if source_circuit.is_mixed_state:
+                    raise NotImplementedError("no mid-circuit measurement on this backend")
+                init = 0
+                if initial_statevector is not None:
+                    init = np.array(reorder(list(np.asarray(initial_statevector).ravel()), n), dtype=complex)
+                sv = cirq.Simulator(dtype=np.complex128).simulate(translate_circuit(source_circuit, "cirq"),
+                                                                   initial_state=init).final_state_vector
+                sv = np.array(reorder(list(sv), n), dtype=complex)
+                self._current_state = sv
+                frequencies = self._statevector_to_frequencies(sv)
+                return (frequencies, sv) if return_statevector else (frequencies, None)
+
+            @staticmethod
+            def backend_info():
+                return {"statevector_available": True, "statevector_order": "msq_first", "noisy_simulation": False}
+
+        _sims[key] = get_backend(UserMsqBackend, n_shots=n_shots, noise_model=None)
+    return _sims[key]
+
+
+def sims_for(backend, n_shots=None):
+    """(backend object, backend object taking the generic statevector route)."""
+    if backend == "usermsq":
+        return user_msq_sim(n_shots), user_msq_sim(n_shots)
+    return cirq_sim(n_shots), cirq_sim(n_shots, generic=True)
+
+
 def sympy_sim():
     if "sympy" not in _sims:
         from tangelo.linq import get_backend
@@ -125,7 +167,7 @@ class Case:
         self.p = to_complex(rec["p"], M).real
         psi = np.array([to_complex(e, M) for e in rec["psi"]], dtype=complex)
         self.final = psi / math.sqrt(self.p)            # normalised post-selected state (floats, for one route only)
-        if self.src == "generic":
+        if self.src in ("generic", "one0"):
             prep = [json_to_gate(g, M) for g in rec["prep"]["prep"]]
             s0 = np.array([to_complex(e, M) for e in rec["prep"]["s0"]], dtype=complex)
         else:
@@ -222,7 +264,7 @@ def exact_of(rec):
     return p, val, var
 
 
-def judge_behaviour(chk, rec, sympy_too=False, variants=("plain", "init")):
+def judge_behaviour(chk, rec, sympy_too=False, variants=("plain", "init"), backend="cirq"):
     """All exact (n_shots=None) routes for one behaviour record."""
     from tangelo.linq import Circuit
     J = Judge(chk, rec, "BH")
@@ -233,39 +275,44 @@ def judge_behaviour(chk, rec, sympy_too=False, variants=("plain", "init")):
     cplx = is_complex_op(terms, M)
     p, val, var = exact_of(rec)
     des = c.des
-    sim, gen = cirq_sim(), cirq_sim(generic=True)
+    sim, gen = sims_for(backend)
+    B = backend
     for tag in variants:
         circ, iv = c.variants[tag]
         ex = {"variant": tag}
-        kw = dict(initial_statevector=iv, desired_meas_result=des)
-        J.call(J.key("cirq", "get_expectation_value", tag, cplx),
+        kw = dict(initial_statevector=c.iv_for(sim, iv), desired_meas_result=des)
+        if B != "cirq":
+            kw.pop("desired_meas_result")
+        J.call(J.key(B, "get_expectation_value", tag, cplx),
                lambda: sim.get_expectation_value(op, circ, **kw), val, "get_expectation_value", ex)
-        J.call(J.key("cirq", "generic.get_expectation_value", tag, cplx),
-               lambda: gen.get_expectation_value(op, circ, **kw), val, "generic-route get_expectation_value", ex)
-        J.call(J.key("cirq", "get_variance", tag, cplx),
+        if gen is not sim:
+            J.call(J.key(B, "generic.get_expectation_value", tag, cplx),
+                   lambda: gen.get_expectation_value(op, circ, **kw), val, "generic-route get_expectation_value", ex)
+        J.call(J.key(B, "get_variance", tag, cplx),
                lambda: sim.get_variance(op, circ, **kw), var, "get_variance (n_shots=None)", ex)
-        J.call(J.key("cirq", "get_standard_error", tag, cplx),
+        J.call(J.key(B, "get_standard_error", tag, cplx),
                lambda: sim.get_standard_error(op, circ, **kw), 0., "get_standard_error (n_shots=None)", ex)
         if not cplx:
-            J.call(J.key("cirq", "_get_expectation_value_from_frequencies", tag, cplx),
+            J.call(J.key(B, "_get_expectation_value_from_frequencies", tag, cplx),
                    lambda: sim._get_expectation_value_from_frequencies(op, circ, **kw), val,
                    "_get_expectation_value_from_frequencies", ex)
             if circ.size > 0:    # get_expectation_value never sends an empty circuit down the statevector route
-                J.call(J.key("cirq", "_get_expectation_value_from_statevector", tag, cplx),
+                J.call(J.key(B, "_get_expectation_value_from_statevector", tag, cplx),
                        lambda: sim._get_expectation_value_from_statevector(op, circ, **kw), val,
                        "_get_expectation_value_from_statevector", ex)
-                J.call(J.key("cirq", "generic._get_expectation_value_from_statevector", tag, cplx),
-                       lambda: gen._get_expectation_value_from_statevector(op, circ, **kw), val,
-                       "generic-route _get_expectation_value_from_statevector", ex)
-            J.call(J.key("cirq", "_get_variance_from_frequencies", tag, cplx),
+                if gen is not sim:
+                    J.call(J.key(B, "generic._get_expectation_value_from_statevector", tag, cplx),
+                           lambda: gen._get_expectation_value_from_statevector(op, circ, **kw), val,
+                           "generic-route _get_expectation_value_from_statevector", ex)
+            J.call(J.key(B, "_get_variance_from_frequencies", tag, cplx),
                    lambda: sim._get_variance_from_frequencies(op, circ, **kw), var, "_get_variance_from_frequencies", ex)
     # empty circuit + the (normalised) final state supplied as initial statevector -> frequency route
     empty = Circuit(n_qubits=c.n)
-    J.call(J.key("cirq", "get_expectation_value", "empty-circuit", cplx, "nomeas"),
-           lambda: sim.get_expectation_value(op, empty, initial_statevector=c.final), val,
+    J.call(J.key(B, "get_expectation_value", "empty-circuit", cplx, "nomeas"),
+           lambda: sim.get_expectation_value(op, empty, initial_statevector=c.iv_for(sim, c.final)), val,
            "get_expectation_value(empty circuit, initial_statevector=final state)", {"variant": "empty"})
-    J.call(J.key("cirq", "get_variance", "empty-circuit", cplx, "nomeas"),
-           lambda: sim.get_variance(op, empty, initial_statevector=c.final), var,
+    J.call(J.key(B, "get_variance", "empty-circuit", cplx, "nomeas"),
+           lambda: sim.get_variance(op, empty, initial_statevector=c.iv_for(sim, c.final)), var,
            "get_variance(empty circuit, initial_statevector=final state)", {"variant": "empty"})
     if sympy_too and des is None:
         sym = sympy_sim()
@@ -295,7 +342,7 @@ def bernstein(sigma2, n, bound):
     return 6. * math.sqrt(max(sigma2, 0.) / n) + 12. * bound / n
 
 
-def judge_shots(chk, rec, n_shots, seed, variants=("plain", "init")):
+def judge_shots(chk, rec, n_shots, seed, variants=("plain", "init"), backend="cirq"):
     """Finite shots: estimate within the band of the exact value; reported variance / standard error within the band
     implied by the exact per-term expectations.  Fixed numpy seed.  Records with mid-circuit measurements are
     evaluated twice: post-selected on the recorded outcomes (desired_meas_result) and un-selected (the dephased
@@ -307,7 +354,8 @@ def judge_shots(chk, rec, n_shots, seed, variants=("plain", "init")):
     op = op_of(terms, M)
     cplx = is_complex_op(terms, M)
     p, val, var = exact_of(rec)
-    sim, gen = cirq_sim(n_shots), cirq_sim(n_shots, generic=True)
+    sim, gen = sims_for(backend, n_shots)
+    B = backend
     coefs = [to_complex(t["c"], M) for t in terms]
     cmax = max([abs(z) for z in coefs] + [0.])
 
@@ -331,11 +379,13 @@ def judge_shots(chk, rec, n_shots, seed, variants=("plain", "init")):
             vhi += abs(z) ** 2 * (1. - m2_min)
         for tag in variants:
             circ, iv = c.variants[tag]
-            kw = dict(initial_statevector=iv, desired_meas_result=des)
-            exx = {"n_shots": n_shots, "seed": seed, "variant": tag, "variants": [tag], "selection": sel}
+            kw = dict(initial_statevector=c.iv_for(sim, iv), desired_meas_result=des)
+            if B != "cirq":
+                kw.pop("desired_meas_result")
+            exx = {"n_shots": n_shots, "seed": seed, "variant": tag, "variants": [tag], "selection": sel, "backend": B}
             if cplx:
                 # complex estimate: both components inside the band
-                key = J.key("cirq", "shots.get_expectation_value", tag, cplx, sel)
+                key = J.key(B, "shots.get_expectation_value", tag, cplx, sel)
                 J.n_eval += 1
                 chk.add_traces(1, "SHOTS:shots.get_expectation_value")
                 try:
@@ -346,16 +396,16 @@ def judge_shots(chk, rec, n_shots, seed, variants=("plain", "init")):
                 except Exception as e:
                     J.report(key + ":exception", "%s: %s" % (type(e).__name__, str(e)[:200]), exx)
             else:
-                J.call(J.key("cirq", "shots.get_expectation_value", tag, cplx, sel),
+                J.call(J.key(B, "shots.get_expectation_value", tag, cplx, sel),
                        seeded(lambda: sim.get_expectation_value(op, circ, **kw)), None, "sampled get_expectation_value", exx,
                        band=(val.real - t_val, val.real + t_val))
                 if sel == "nomeas" and circ.size > 0:
-                    J.call(J.key("cirq", "shots.generic._get_expectation_value_from_statevector", tag, cplx, sel),
+                    J.call(J.key(B, "shots.generic._get_expectation_value_from_statevector", tag, cplx, sel),
                            seeded(lambda: gen._get_expectation_value_from_statevector(op, circ, **kw)), None,
                            "sampled generic statevector route", exx, band=(val.real - t_val, val.real + t_val))
-            J.call(J.key("cirq", "shots.get_variance", tag, cplx, sel),
+            J.call(J.key(B, "shots.get_variance", tag, cplx, sel),
                    seeded(lambda: sim.get_variance(op, circ, **kw)), None, "sampled get_variance", exx, band=(vlo, vhi))
-            J.call(J.key("cirq", "shots.get_standard_error", tag, cplx, sel),
+            J.call(J.key(B, "shots.get_standard_error", tag, cplx, sel),
                    seeded(lambda: sim.get_standard_error(op, circ, **kw)), None, "sampled get_standard_error", exx,
                    band=(math.sqrt(max(vlo, 0.) / n_shots), math.sqrt(vhi / n_shots)))
 
@@ -369,19 +419,19 @@ def judge_shots(chk, rec, n_shots, seed, variants=("plain", "init")):
             t, e = nz[0]
             op1 = QubitOperator(term_of_word(t["w"]), 1.)
             circ, iv = c.variants[variants[0]]
-            key = J.key("cirq", "shots.lattice.get_expectation_value", variants[0], False, "nomeas")
+            key = J.key(B, "shots.lattice.get_expectation_value", variants[0], False, "nomeas")
             tb = bernstein(1. - e * e, n_shots, 2.)
 
             def one():
                 np.random.seed(seed)
-                return sim.get_expectation_value(op1, circ, initial_statevector=iv)
+                return sim.get_expectation_value(op1, circ, initial_statevector=c.iv_for(sim, iv))
             got = J.call(key, one, None, "sampled single-term get_expectation_value", {"n_shots": n_shots, "seed": seed,
-                         "variants": list(variants)}, band=(e - tb, e + tb))
+                         "variants": list(variants), "backend": B}, band=(e - tb, e + tb))
             if got is not None:
                 k = (got.real + 1.) * n_shots / 2.
                 if abs(k - round(k)) > 1e-6:
                     J.report(key + ":not-a-sample-mean", "n_shots=%d: estimate %r is not of the form (2k-n)/n: it is not the mean of "
-                             "n_shots sampled +-1 outcomes" % (n_shots, got), {"n_shots": n_shots, "seed": seed, "variants": list(variants)})
+                             "n_shots sampled +-1 outcomes" % (n_shots, got), {"n_shots": n_shots, "seed": seed, "variants": list(variants), "backend": B})
         return J
     # un-selected: the mixture over all outcome strings
     block("mixed", None, to_complex(rec["mixnum"], M), [to_complex(t["mix"], M).real for t in terms], n_shots)
@@ -655,7 +705,7 @@ def judge_history(chk, rec, other=None):
     evaluate("terms-restore", prefixes[-1])
     alt = rec["alt"]
     if alt["pos"] and to_complex(alt["p"], M).real > 1e-12:
-        off = (len(rec["prep"]["prep"]) if (tag == "plain" and rec["src"] == "generic") else 0) + alt["pos"] - 1
+        off = (len(rec["prep"]["prep"]) if (tag == "plain" and rec["src"] in ("generic", "one0")) else 0) + alt["pos"] - 1
         g = circ._gates[off]
         if g.name != rec["gates"][alt["pos"] - 1]["name"]:
             raise RuntimeError("history: gate index mismatch")
@@ -666,6 +716,131 @@ def judge_history(chk, rec, other=None):
         evaluate("gate-parameter-back", prefixes[-1])
     if id(op) != ident:
         raise RuntimeError("history: the operator object was replaced")
+    chk.add_eval(1, 1)
+    return J
+
+
+def judge_order_state(chk, rec, n_shots, seed):
+    """Qubit-order conventions on msq_first backends, exact and sampled.  rec: an exported state without measurement
+    (exact amplitudes and <P_w> of every word from TLC); the states used are NOT symmetric under reversal of the qubit
+    order.  Outcome strings list qubit 0 first, whatever the backend's internal amplitude order.
+      user-defined msq_first backend, n_shots in {None, finite}: simulate() frequencies (and the statevector, in the
+      advertised order), every word through get_expectation_value / get_variance (finite shots: band + lattice);
+      sympy (msq_first) with n_shots: the sampled path it supports (empty circuit + initial_statevector; I/Z words)."""
+    from tangelo.linq import Circuit
+    from tangelo.toolboxes.operators import QubitOperator
+    J = Judge(chk, rec, "ORDER")
+    c = J.case
+    M, n, p = rec["M"], rec["n"], c.p
+    probs = {format(i, "0%db" % n): abs(to_complex(a, M)) ** 2 / p for i, a in enumerate(rec["psi"])}
+    es = [to_complex(e, M).real / p for e in rec["ew"]]
+    words = [[(j // 4 ** (n - 1 - q)) % 4 for q in range(n)] for j in range(4 ** n)]
+    ex0 = {"n_shots": n_shots, "seed": seed}
+
+    def check_freqs(key, freqs, shots, ex):
+        freqs = {k: float(to_num(v).real) for k, v in freqs.items()}
+        tot = sum(freqs.values())
+        if abs(tot - 1.) > 1e-9:
+            J.report(key + ":normalisation", "frequencies sum to %r" % tot, ex)
+        for k in sorted(set(freqs) | set(probs)):
+            f, pr = freqs.get(k, 0.), probs.get(k, 0.)
+            if k not in probs or (pr < 1e-12 and f > 1e-12):
+                J.report(key + ":support", "outcome %r (qubit 0 first) has exact probability 0 but frequency %r" % (k, f), ex)
+            elif shots is None and abs(f - pr) > TOL:
+                J.report(key, "exact frequency of %s (qubit 0 first) is %r, exact probability %r" % (k, f, pr), ex)
+            elif shots is not None and abs(f - pr) > bernstein(pr * (1. - pr), shots, 1.) + 1e-12:
+                J.report(key, "n_shots=%d: frequency %r of %s (qubit 0 first) outside the 6-sigma band of %r" % (shots, f, k, pr), ex)
+
+    for shots in (None, n_shots):
+        sim = user_msq_sim(shots)
+        pre = "order." if shots is None else "shots.order."
+        for tag in ("plain", "init"):
+            circ, iv = c.variants[tag]
+            ivb = c.iv_for(sim, iv)
+            ex = dict(ex0, variant=tag, shots=shots)
+            key = J.key("usermsq", pre + "simulate", tag, False, "nomeas")
+            J.n_eval += 1
+            chk.add_traces(1, "ORDER:" + pre + "simulate")
+            try:
+                np.random.seed(seed)
+                freqs, sv = sim.simulate(circ, return_statevector=True, initial_statevector=ivb)
+            except Exception as e:
+                J.report(key + ":exception", "simulate raised %s: %s" % (type(e).__name__, str(e)[:200]), ex)
+            else:
+                check_freqs(key, freqs, shots, ex)
+                got = reorder([complex(x) for x in np.asarray(sv).ravel()], n)        # advertised msq_first -> spec order
+                if max(abs(a - b) for a, b in zip(got, c.final)) > TOL:
+                    J.report(key + ":statevector", "statevector (read in the advertised msq_first order) differs from the exact state", ex)
+            for j, w in enumerate(words):
+                if shots is not None and not (any(w) and (j % 3 == seed % 3 or not any(l in (1, 2) for l in w))):
+                    continue                  # finite shots: every I/Z word and a third of the others
+                e = es[j]
+                op = QubitOperator(term_of_word(w), 1.)
+                exw = dict(ex, word=j)
+                kw = dict(initial_statevector=ivb)
+                if shots is None:
+                    J.call(J.key("usermsq", pre + "get_expectation_value", tag, False, "nomeas"),
+                           lambda: sim.get_expectation_value(op, circ, **kw), e, "get_expectation_value(%s)" % (term_of_word(w),), exw)
+                    J.call(J.key("usermsq", pre + "_get_expectation_value_from_frequencies", tag, False, "nomeas"),
+                           lambda: sim._get_expectation_value_from_frequencies(op, circ, **kw), e,
+                           "_get_expectation_value_from_frequencies(%s)" % (term_of_word(w),), exw)
+                    J.call(J.key("usermsq", pre + "get_variance", tag, False, "nomeas"),
+                           lambda: sim.get_variance(op, circ, **kw), 1. - e * e, "get_variance(%s)" % (term_of_word(w),), exw)
+                else:
+                    tb = bernstein(1. - e * e, shots, 2.)
+
+                    def one():
+                        np.random.seed(seed + j)
+                        return sim.get_expectation_value(op, circ, **kw)
+
+                    def onev():
+                        np.random.seed(seed + j)
+                        return sim.get_variance(op, circ, **kw)
+                    got = J.call(J.key("usermsq", pre + "get_expectation_value", tag, False, "nomeas"), one, None,
+                                 "n_shots=%d get_expectation_value(%s)" % (shots, term_of_word(w)), exw, band=(e - tb, e + tb))
+                    if got is not None and abs((got.real + 1.) * shots / 2. - round((got.real + 1.) * shots / 2.)) > 1e-6:
+                        J.report(J.key("usermsq", pre + "get_expectation_value", tag, False, "nomeas") + ":not-a-sample-mean",
+                                 "estimate %r is not the mean of %d outcomes +-1" % (got, shots), exw)
+                    a, b = max(-1., e - tb), min(1., e + tb)
+                    vhi = 1. - (0. if a <= 0. <= b else min(a * a, b * b))
+                    vlo = 1. - max(a * a, b * b)
+                    J.call(J.key("usermsq", pre + "get_variance", tag, False, "nomeas"), onev, None,
+                           "n_shots=%d get_variance(%s)" % (shots, term_of_word(w)), exw, band=(vlo, vhi))
+    # ---- sympy, sampled: the path it supports (Backend.simulate's empty-circuit shortcut samples the supplied statevector)
+    if n <= 2 or rec["src"] == "one0":
+        key_s = ("sympy", n_shots)
+        if key_s not in _sims:
+            from tangelo.linq import get_backend
+            _sims[key_s] = get_backend("sympy", n_shots=n_shots)
+        sym = _sims[key_s]
+        empty = Circuit(n_qubits=n)
+        # a flat numpy vector in the advertised msq_first order: the empty-circuit shortcut samples it directly (the column
+        # vector that sympy's own simulate_circuit needs breaks the sampler: part of the sympy frequency-route finding)
+        fin = np.array(reorder(list(c.final), n), dtype=complex)
+        ex = dict(ex0, variant="empty", shots=n_shots, sympy_frequency_route=True)
+        key = J.key("sympy", "shots.order.simulate", "empty-circuit", False, "nomeas")
+        J.n_eval += 1
+        chk.add_traces(1, "ORDER:sympy.shots.order.simulate")
+        try:
+            np.random.seed(seed)
+            freqs, _ = sym.simulate(empty, initial_statevector=fin)
+        except Exception as e:
+            J.report("sympy:frequency-route:exception:" + key[len("sympy:"):], "simulate raised %s: %s" % (type(e).__name__, str(e)[:200]), ex)
+        else:
+            check_freqs(key, freqs, n_shots, ex)
+        for j, w in enumerate(words):
+            if not any(w) or any(l in (1, 2) for l in w):
+                continue
+            e = es[j]
+            op = QubitOperator(term_of_word(w), 1.)
+            tb = bernstein(1. - e * e, n_shots, 2.)
+
+            def ones():
+                np.random.seed(seed + j)
+                return sym.get_expectation_value(op, empty, initial_statevector=fin)
+            J.call(J.key("sympy", "shots.order.get_expectation_value", "empty-circuit", False, "nomeas"), ones, None,
+                   "sympy n_shots=%d get_expectation_value(%s) on empty circuit + initial_statevector" % (n_shots, term_of_word(w)),
+                   dict(ex, word=j), band=(e - tb, e + tb))
     chk.add_eval(1, 1)
     return J
 
@@ -853,7 +1028,8 @@ def attach(recs, r, M):
     preps = r.prints("PREP")
     for rec in recs:
         rec["M"] = M
-        rec["prep"] = {"prep": preps[0]["prep"], "s0": preps[0]["s0"]} if rec["src"] == "generic" else None
+        rec["prep"] = ({"prep": preps[0]["prep"], "s0": preps[0]["s0"]} if rec["src"] == "generic" else
+                       {"prep": preps[0]["prep1"], "s0": preps[0]["s1"]} if rec["src"] == "one0" else None)
     return recs
 
 
@@ -862,14 +1038,17 @@ def tlc_phase(chk):
     quick = chk.quick
     # ---------------- S + G(ST): exhaustive exploration ------------------------------------------------
     #           (M, N, depth, max measurements, workers)
-    bfs_plan = [(8, 1, 3, 2, 1), (8, 2, 3, 1, 6), (8, 3, 1, 1, 2)]
+    bfs_plan = [(8, 1, 3, 2, 1, "SrcBoth"), (8, 2, 3, 1, 6, "SrcBoth"), (8, 3, 1, 1, 2, "SrcBoth")]
     if not quick:
-        bfs_plan = [(8, 3, 2, 1, 8), (8, 2, 4, 1, 8), (8, 2, 3, 2, 6), (8, 1, 4, 2, 1), (16, 1, 3, 1, 1), (16, 2, 2, 1, 4)]
+        bfs_plan = [(8, 3, 2, 1, 8, "SrcBoth"), (8, 2, 4, 1, 8, "SrcBoth"), (8, 2, 3, 2, 6, "SrcBoth"), (8, 1, 4, 2, 1, "SrcBoth"),
+                    (16, 1, 3, 1, 1, "SrcBoth"), (16, 2, 2, 1, 4, "SrcBoth")]
+    # |10..0>: not symmetric under reversal of the qubit order
+    bfs_plan += [(8, 3, 1, 0, 1, "SrcOne"), (8, 2, 1, 0, 1, "SrcOne")]
     jobs = []
     cov_idx = next(i for i, pl in enumerate(bfs_plan) if pl[0] == 8 and pl[1] == 1)     # -coverage on the cheapest run
-    for i, (m, N, D, MM, wk) in enumerate(bfs_plan):
-        jobs.append(dict(module="C02Expect", cfg=bfs_cfg(m, N, D, MM), name="c02/bfs_M%d_N%d_D%d" % (m, N, D), workers=wk,
-                         coverage=(i == cov_idx), heap="6g", timeout=7200))
+    for i, (m, N, D, MM, wk, src) in enumerate(bfs_plan):
+        jobs.append(dict(module="C02Expect", cfg=bfs_cfg(m, N, D, MM, src), name="c02/bfs_M%d_N%d_D%d_%s" % (m, N, D, src),
+                         workers=wk, coverage=(i == cov_idx), heap="6g", timeout=7200))
     # ---------------- G(BH): behaviours with operators (tlc -simulate) ------------------------------------
     #           (M, N, depth, terms, max meas, sources, depth choices, num)
     nb = 1 if quick else 8
@@ -878,7 +1057,9 @@ def tlc_phase(chk):
                 (8, 2, 4, 4, 2, "SrcZero", "DepthOnlyMax", 40 * nb),
                 (8, 3, 3, 4, 2, "SrcGeneric", "DepthAll", 60 * nb),
                 (8, 3, 4, 5, 2, "SrcZero", "DepthOnlyMax", 40 * nb),
-                (8, 3, 2, 5, 1, "SrcGeneric", "DepthAll", 40 * nb)]
+                (8, 3, 2, 5, 1, "SrcGeneric", "DepthAll", 40 * nb),
+                (8, 3, 1, 4, 0, "SrcOne", "DepthAll", 16 * nb),
+                (8, 2, 1, 3, 0, "SrcOne", "DepthAll", 8 * nb)]
     if not quick:
         sim_plan += [(16, 1, 3, 3, 1, "SrcBoth", "DepthAll", 100), (16, 2, 3, 4, 1, "SrcBoth", "DepthAll", 200)]
     sims, sim_meta = [], []
@@ -892,11 +1073,11 @@ def tlc_phase(chk):
     results = tlc.run_many(jobs + sims, max_parallel=int(os.environ.get("VERIF_MAXPAR", "16")))
     bfs, simres = results[:len(jobs)], results[len(jobs):]
     sts = []
-    for (m, N, D, MM, wk), r in zip(bfs_plan, bfs):
+    for (m, N, D, MM, wk, src), r in zip(bfs_plan, bfs):
         if not r.ok:
             raise tlc.TLCError("C02Expect: an algorithm model disagrees with the exact semantics (spec-level): %s\n%s"
                                % (r.violated, r.out[-2000:]))
-        part = "S_bfs_M%d_N%d_D%d" % (m, N, D)
+        part = "S_bfs_M%d_N%d_D%d%s" % (m, N, D, "" if src == "SrcBoth" else "_" + src)
         chk.add_tlc(r, part)
         recs = attach(r.prints("ST"), r, m)
         chk.part(part, exported_states=len(recs))
@@ -1014,6 +1195,28 @@ def run(chk):
              note="cross-circuit step: coefficients contracted with TLC's exact <P_w> of the other state (spec-structured contraction)")
     timing["replay_histories_s"] = round(time.time() - t1, 1)
     t1 = time.time()
+    # qubit-order conventions: user-defined msq_first backend (exact + sampled) and sympy's sampled path, on states that
+    # are not symmetric under reversal of the qubit order
+    oc = [r for r in sts if r["nmeas"] == 0 and r["M"] == 8 and r["n"] >= 2]
+    one_d0 = [r for r in oc if r["src"] == "one0" and not r["gates"]]
+    one_dx = [r for r in oc if r["src"] == "one0" and r["gates"]]
+    gen_x = [r for r in oc if r["src"] == "generic"]
+    k1, k2 = (3, 5) if quick else (25, 50)
+    osel = one_d0 + rng.sample(one_dx, min(k1, len(one_dx))) + rng.sample(gen_x, min(k2, len(gen_x)))
+    if not one_d0:
+        raise tlc.TLCError("vacuity: the |10..0> states were not exported")
+    for rec in osel:
+        judge_order_state(chk, rec, 2000, rng.randrange(2 ** 31))
+    mb = [b for b in bhs if b["nmeas"] == 0 and b["n"] >= 2 and b["src"] in ("generic", "one0") and b["terms"]]
+    mb = rng.sample(mb, min(30 if quick else 300, len(mb)))
+    for rec in mb:
+        judge_behaviour(chk, rec, backend="usermsq")
+        if rec["gates"]:
+            judge_shots(chk, rec, rng.choice([1000, 20000]), rng.randrange(2 ** 31), backend="usermsq")
+    chk.part("msq_first_backends", states=len(osel), behaviours=len(mb),
+             note="user-defined Backend subclass advertising msq_first (cirq under the hood) + sympy sampled path")
+    timing["replay_msq_first_s"] = round(time.time() - t1, 1)
+    t1 = time.time()
     # collect the large-shot cases started above
     for fut in big_futs:
         viol, ntr = fut.result()
@@ -1069,8 +1272,11 @@ def replay(chk, rec):
     c2 = check.Check(PID + "ctl", ["quick"])
     c2.known = []
     kind = case["kind"]
+    bk = "usermsq" if rec["key"].startswith("usermsq") else "cirq"
     if kind == "BH":
-        J = judge_behaviour(c2, case["rec"], sympy_too=rec["key"].startswith("sympy"))
+        J = judge_behaviour(c2, case["rec"], sympy_too=rec["key"].startswith("sympy"), backend=bk)
+    elif kind == "ORDER":
+        J = judge_order_state(c2, case["rec"], case["n_shots"], case["seed"])
     elif kind == "ST":
         J = judge_state(c2, case["rec"], words=[case["word"]] if "word" in case else None, tag=case.get("variant", "plain"))
     elif kind == "TYPES":
@@ -1080,7 +1286,8 @@ def replay(chk, rec):
     elif kind == "BIGSHOTS":
         J = judge_bigshots(c2, case["rec"], case["n_shots"], case["seed"], word=case.get("word"))
     elif kind == "SHOTS":
-        J = judge_shots(c2, case["rec"], case["n_shots"], case["seed"], variants=tuple(case.get("variants", ("plain", "init"))))
+        J = judge_shots(c2, case["rec"], case["n_shots"], case["seed"], variants=tuple(case.get("variants", ("plain", "init"))),
+                        backend=case.get("backend", "cirq"))
     else:
         print(rec)
         return False
